@@ -48,6 +48,15 @@ def step (t : List String) : String :=
         showFloats (bootReplayF rec lt.toList ld.toList cs knots probes)
       | none => "bad-op"
     | _, _, _ => "bad-op"
+  | ["FAST", long, teff, tmat, r, spread, rcurve, rcon, cpn, notional, acc] =>
+    match floats? [teff, tmat, r, spread, rcurve, rcon, cpn, notional, acc] with
+    | some [teff, tmat, r, spread, rcurve, rcon, cpn, notional, acc] =>
+      showFloats (fastF teff tmat r spread rcurve rcon cpn notional acc (long != "0"))
+    | _ => "bad-op"
+  | "SURV" :: method :: rest =>
+    match method.toInt?, arrays rest with
+    | some m, some [ts, vs, t] => showFloats (survF m ts.toList vs.toList t)
+    | _, _ => "bad-op"
   | _ => "bad-op"
 
 def main : IO Unit := loop step
